@@ -30,7 +30,7 @@ pub struct C13Case {
 }
 
 pub const SPLITS: usize = 11;
-pub const RULE: &str = "enumeration: item size limits {1 KiB, 2 KiB, 4 KiB-1, 64 KiB, 1 MiB, 4 MiB} x body length {limit-1, limit, limit+1, 2*limit, 16*limit (<= 8 MiB), 2^31-1 / 2^31 / 2^31+4096 / 2^32-1 announced with 64 KiB of complete set requests sent as body and an early close} x every opcode in the protocol table (also with key_length 251/65535 or extras_length 21/255 in the oversized header) x position in the pipeline {first, middle, last} x split of the oversized frame between the first enforced chunk and the rest {header only, +1 body byte, 1/4, 1/2-1, 1/2, 1/2+1, 3/4, body-1, whole body, body + part of the next request, everything in one chunk} (and, for a sub-grid, a client that goes silent for 0.3 / 1.2 / 2.5 s after that first chunk), each on a fresh loopback connection to an in-process server (quick tier: a fixed sub-grid; thorough: full grid plus proptest-random points). Oracle: the oversized request is answered exactly once with status 0x03 and its opaque; the requests before and after it are answered exactly as if it had never been sent (get of a key set before it hits, a counter increment after it returns its initial value, the sentinel noop is answered); the key it names is absent from the store (in-process side channel); a body of at most the limit is never answered 0x03 and a limit-sized set is stored. non-trivial = an oversized frame followed by at least one request with at least one body byte in the first chunk";
+pub const RULE: &str = "enumeration: item size limits {1 KiB, 2 KiB, 4 KiB-1, 64 KiB, 1 MiB, 4 MiB} x body length {limit-1, limit, limit+1, 2*limit, 16*limit (<= 8 MiB), 2^31-1 / 2^31 / 2^31+4096 / 2^32-1 announced with 64 KiB of complete set requests sent as body and an early close} x every opcode in the protocol table (also with key_length 251/65535 or extras_length 21/255 in the oversized header) x position in the pipeline {first, middle, last} x split of the oversized frame between the first enforced chunk and the rest {header only, +1 body byte, +2..32 body bytes (18 values around the extras and key lengths), 1/4, 1/2-1, 1/2, 1/2+1, 3/4, body-1, whole body, body + part of the next request, everything in one chunk} (and, for a sub-grid, a client that goes silent for 0.3 / 1.2 / 2.5 s after that first chunk), each on a fresh loopback connection to an in-process server (quick tier: a fixed sub-grid; thorough: full grid plus proptest-random points). Oracle: the oversized request is answered exactly once with status 0x03 and its opaque; the requests before and after it are answered exactly as if it had never been sent (get of a key set before it hits, a counter increment after it returns its initial value, the sentinel noop is answered); the key it names is absent from the store (in-process side channel); a body of at most the limit is never answered 0x03 and a limit-sized set is stored. non-trivial = an oversized frame followed by at least one request with at least one body byte in the first chunk";
 pub const ASSUME: &[&str] = &[
     "the server reads into a 4 KiB buffer, so the part of a large body that is buffered when its header is parsed is bounded by what one read returns; the split table is applied to the first enforced chunk",
     "bodies above 8 MiB are only announced, not sent in full",
@@ -114,7 +114,7 @@ pub fn run_case(c: &C13Case) -> CaseReport {
         wire::counter(wire::INCR, b"ctr", 1, 5, 0, 4, 0).write_to(&mut stream);
     }
     let bsz = present;
-    let x = match c.split as usize % SPLITS {
+    let x = match c.split as usize {
         0 => 0,
         1 => 1.min(bsz),
         2 => bsz / 4,
@@ -125,7 +125,9 @@ pub fn run_case(c: &C13Case) -> CaseReport {
         7 => bsz.saturating_sub(1),
         8 => bsz,
         9 => (bsz + 10).min(stream.len() - fstart - 24),
-        _ => stream.len() - fstart - 24,
+        10 => stream.len() - fstart - 24,
+        // a handful of body bytes behind the header: inside the extras, at their end, inside the key, at its end
+        n => [2usize, 3, 4, 7, 8, 9, 10, 11, 12, 16, 19, 20, 21, 22, 23, 24, 25, 32][(n - 11) % 18].min(bsz),
     };
     let first_end = (fstart + 24 + x).min(stream.len());
     let mut cuts = vec![first_end];
@@ -255,7 +257,7 @@ pub fn run_case(c: &C13Case) -> CaseReport {
     }
     rep.nontrivial = oversized && c.pos <= 1 && x >= 1;
     rep.classes.push(format!("limit{}", c.limit));
-    rep.classes.push(format!("split{}", c.split as usize % SPLITS));
+    rep.classes.push(if (c.split as usize) < SPLITS { format!("split{}", c.split) } else { "split_few_bytes".to_string() });
     rep.classes.push(format!("pos{}", c.pos));
     rep.classes.push(if oversized { "oversized".into() } else { "within_limit".into() });
     if run.timed_out && rep.fail.is_some() {
@@ -303,6 +305,14 @@ fn grid(ctx: &Ctx) -> Vec<C13Case> {
                 }
             }
         }
+        // first chunks that end a few bytes into the body (2..32 bytes: inside the extras, the key, just behind them)
+        if *l <= 65536 {
+            for (i, op) in [wire::SET, wire::ADDQ, wire::INCR, wire::DECRQ, wire::APPEND, wire::FLUSH, wire::GET, wire::DELETE].iter().enumerate() {
+                for split in 11u8..29 {
+                    v.push(C13Case { limit: *l, op: *op, size_sel: 2 + ((i + split as usize) % 3) as u8, split, pos: 1, workers: 0, hdr: 0, stall_ms: 0 });
+                }
+            }
+        }
         // the client pauses (0.3 s, 1.2 s, 2.5 s) while part of the oversized body is still to come
         if *l <= 65536 {
             for (i, stall) in [300u16, 1200, 2500].iter().enumerate() {
@@ -328,7 +338,7 @@ pub fn strategy() -> BoxedStrategy<C13Case> {
         prop::sample::select(vec![1024u32, 1500, 2048, 4095, 10_000, 65536]),
         0u8..0x25,
         0u8..5,
-        0u8..SPLITS as u8,
+        0u8..29,
         0u8..3,
         prop_oneof![Just(0u8), Just(2u8)],
     )
